@@ -6,9 +6,13 @@ start — present; future markers are versions above the end and at most the epo
 import AkdModel.Thm.C02
 import AkdModel.Thm.C07
 import AkdModel.Thm.C08
+import AkdModel.Lemmas.GenHistoryVerify
 namespace Akd.C03
 open Akd C01
 
+-- (`hce` and `hvals` are not needed by the proof: in allow-mode an honest entry with an empty value is
+-- checked by `verify_existence` alone and is accepted as well)
+set_option linter.unusedVariables false in
 /-- **history completeness**: for a published label and every parameter (Complete, MostRecent n with
 n ≥ 1), the history request succeeds and the returned proof verifies — with the strict verifier and
 with the one that allows missing values — to the label's versions newest first, all of them or the
@@ -23,6 +27,11 @@ theorem history_complete (c : Cfg) (hc : c.Lawful) (hce : c.emptyLabel.len = 0) 
     ∃ π, d.keyHistory c u p = .ok (π, sp.epoch, Spec.rootHash c d.commitmentKey d.vrf sp) ∧
       Verify.history c d.vrf (Spec.rootHash c d.commitmentKey d.vrf sp) sp.epoch u π p allow
         = .ok ((C07.expected (sp.table.get u) p).map C07.resultOf) := by
-  sorry
+  obtain ⟨past, future, hm, hgen⟩ := Gen.keyHistory_gen c d sp users N hv ht hN href u hmem hpub p hp
+  obtain ⟨hwf, h256, -⟩ := Gen.refines_tree_facts c d sp hv href
+  have hlen := Pub.versOK_length_le (href.versions u).1 _ (href.versions u).2
+  exact ⟨_, hgen, Gen.honestHistory_verifies hc hfresh hv hwf h256
+    (refines_honest c hc d sp hv users N ht hN hu href u hmem) hpub sp.epoch hlen
+    (fun f x h1 h2 => ht u hmem f x h1 (by omega)) p hp allow past future hm⟩
 
 end Akd.C03
